@@ -12,7 +12,7 @@ RULE = ('cases = 15 built-in forms x per-form parameter lattice (negative, zero,
         'x 4 routes {potentialfunctions.f(r, p..), potentialforms.f(p..)(r), "as.NAME p.." in [Pair], as.NAME(r, p..) inside a '
         '[Potential-Form] formula (literal and positionally bound arguments)}; every lattice point evaluated; non-trivial = '
         'parameter vector with pairwise distinct non-zero components (so a swapped binding changes the value)')
-RULE += "; polynomial orders 0..14; -1 / -2 parameter pairs; number spellings (25e-1, +1.5, .5, 5.); five spellings of as.NAME( inside formulas (blank before the bracket, upper case, bracket on a continuation line); a fifth route: as.NAME in [Pair] of a file that also defines the user's own form with the bare name NAME; integer-typed separations; the potential functions called with keyword arguments in reversed / rotated order, through functools.partial, and partly positional"
+RULE += "; polynomial orders 0..14; -1 / -2 parameter pairs; number spellings (25e-1, +1.5, .5, 5.); five spellings of as.NAME( inside formulas (blank before the bracket, upper case, bracket on a continuation line); a fifth route: as.NAME in [Pair] of a file that also defines the user's own form with the bare name NAME; integer-typed separations; the potential functions called with keyword arguments in reversed / rotated order, through functools.partial, and partly positional; separations of type numpy.float64 (function route) and 0-d numpy arrays (factory route)"
 ASSUMPTIONS = [
     'documented closed forms from docs/reference/potential_forms.rst; constants of coul (epsilon_0 = 0.0055264), zbl and Tang-Toennies (0.5292 bohr, 27.211 eV) as in DESIGN 2.3',
     'tolerance 1e-12 x (sum of the absolute values of the terms of the formula): absorbs legitimate re-association, not a changed constant, exponent or binding',
@@ -184,6 +184,11 @@ def route_values(name, vecs, rs):
                 out['function, first parameter positional, rest keywords reversed'] = [[ev(lambda r_, kw=dict(list(zip(names[2:], p[1:]))[::-1]): f(r_, p[0], **kw), r) for r in rs] for p in vecs]
     fac = getattr(pforms, name)
     out['factory'] = [[ev(fac(*p), r) for r in rs] for p in vecs]
+    # separations as numpy produces them (grids built with numpy.linspace / arange hand over numpy.float64; a[i:i+1].reshape(()) a 0-d array)
+    import numpy
+    if name != 'buck4':
+        out['function, numpy.float64 separation'] = [[ev(lambda r_: float(f(numpy.float64(r_), *p)), r) for r in rs] for p in vecs]
+    out['factory, 0-d array separation'] = [[ev(lambda r_: float(fac(*p)(numpy.array(float(r_)))), r) for r in rs] for p in vecs]
     # potable routes: one file, one [Pair] entry per parameter vector
     lines = ['[Tabulation]', 'target : LAMMPS', 'nr : 3', 'cutoff : 1.0', '', '[Pair]']
     for i, p in enumerate(vecs):
